@@ -48,7 +48,7 @@ def fans(shape):
 class InitSim(Sim):
     PROP = "C15"
     NAME = "initsim"
-    QUICK_RUNS = 4000
+    QUICK_RUNS = 16000
     THOROUGH_RUNS = 120000
     MAX_EVENTS = 10
     PROBES = ["stub_hit_uniform", "stub_hit_normal", "real_rng_large_sample", "rank1_plain_filler", "rank_lt2_refused", "fan_out_mode",
